@@ -16,6 +16,7 @@ class Case:
     branch_part: str # branch part
     case_id: str     # case ID
     case_type: str   # one of the types: case/else/end
+    indent: int = 0  # indent of the clause keyword
 
 @dataclass
 class Branch:
@@ -79,6 +80,19 @@ class BranchingList:
         self.num_cases += 1
         return self.num_cases
     
+    def close_by_indent(self, indent:int, clause:bool=False):
+        """ Close branches whose clause is ended by a line with a given indent
+
+        :param int indent: Indent of a new line
+        :param bool clause: New line is a clause (@case/@else/@end); a clause at the same indent belongs to the same branch
+        """
+        while self.state:
+            case_indent = self.cases[self._get_case_id()].indent
+            if indent<case_indent or (indent==case_indent and not clause):
+                self._close_branch()
+            else:
+                break
+       
     def false_case(self):
         """ Checks if case value is false
         """
@@ -136,6 +150,7 @@ class BranchingList:
                 branch_part = branch_part,       # part on the branch
                 case_id     = case_id,           # case ID
                 case_type   = node.case_type,    # case type CASE/ELSE/END
+                indent      = node.indent,       # indent of the clause keyword
             )
         else:
             raise Exception(f"Invalid condition:", node.code)
